@@ -79,7 +79,8 @@ void MetaOptimizer::doInit(const ParameterList& parameters)
       string pname = optDesc_->getParameterNames(i)[j];
       if (parameters.hasParameter(pname))
       {
-        optParameters_[i].addParameter(parameters.parameter(pname));
+        // Use the parameter as processed by the constraint policy (no constraint under 'ignore'):
+        optParameters_[i].addParameter(getParameters().parameter(pname));
       }
     }
     nbParameters_[i] = optParameters_[i].size();
@@ -117,6 +118,7 @@ double MetaOptimizer::doStep()
   stepCount_++;
 
   int tolTest = 0;
+  bool stepWise = false;
   double tol = getStopCondition()->getTolerance();
   if (stepCount_ <= n_)
   {
@@ -156,10 +158,19 @@ double MetaOptimizer::doStep()
         cout << endl;
 
       getParameters_().matchParametersValues(opt.getParameters());
+      // A single step may leave the function at a trial point: put it where the parameters are,
+      // the next optimizer (and the value returned) start from there.
+      getFunction()->setParameters(getParameters());
     }
-    tolTest += nbParameters_[i] > 0 ? 1 : 0;
+    if (nbParameters_[i] > 0)
+    {
+      tolTest++;
+      if (optDesc_->getIterationType(i) != MetaOptimizerInfos::IT_TYPE_FULL)
+        stepWise = true;
+    }
   }
-  tolIsReached_ = (tolTest == 1);
+  // One optimizer only, run until its own convergence: nothing more to do.
+  tolIsReached_ = (tolTest == 1 && !stepWise);
 
   return getFunction()->getValue();
 }
